@@ -186,6 +186,35 @@ TakePoints(a, idxs, mode, tol) ==
      ELSE IF ~PointsOK(r, idxs) THEN Err("ShapeMismatch")
      ELSE Ok([p \in 1..(IF PtDims(r, idxs) = {} THEN 1 ELSE PointCount(r, idxs)) |-> At(a, PointCoord(r, idxs, p))])
 
+\* the whole array read by a pointwise index (getaxes_broadcast / NumPy's advanced-indexing placement rule):
+\* list / mask dimensions (P) pair up into ONE "broadcast" axis labelled by the tuples of their labels (named "d1,d2");
+\* scalars are broadcast with them (B = P + scalars) but contribute neither to the name nor to the tuples;
+\* the broadcast axis stands where B stood when B is contiguous, first otherwise; sliced dimensions keep their order.
+\* srcdims[j] = source dimensions behind result dimension j; labs[j][t] = tuple of labels (1-tuples on ordinary axes).
+TakePointsArr(a, idxs, mode, tol) ==
+  LET r == ResolveIndex(a, idxs, mode, tol)
+  IN IF \E i \in 1..Len(r) : ~r[i].ok THEN Err("IndexError")
+     ELSE IF ~PointsOK(r, idxs) THEN Err("ShapeMismatch")
+     ELSE IF PtDims(r, idxs) = {} THEN Err("NotPointwise")
+     ELSE LET P == PtDims(r, idxs)
+              B == P \cup {i \in 1..Len(r) : r[i].drop}
+              n == PointCount(r, idxs)
+              Pseq == SelectSeq(Idx(a.dims), LAMBDA i : i \in P)
+              Sseq == SelectSeq(Idx(a.dims), LAMBDA i : i \notin B)
+              lo == CHOOSE i \in B : \A j \in B : i <= j
+              hi == CHOOSE i \in B : \A j \in B : i >= j
+              ins == IF hi - lo + 1 = Cardinality(B) THEN lo - 1 ELSE 0
+              nd == Len(Sseq) + 1
+              srcdims == [j \in 1..nd |-> IF j = ins + 1 THEN Pseq ELSE <<Sseq[IF j <= ins THEN j ELSE j - 1]>>]
+              labs == [j \in 1..nd |-> IF j = ins + 1
+                         THEN [p \in 1..n |-> [q \in 1..Len(Pseq) |-> a.labs[Pseq[q]][r[Pseq[q]].pos[p]]]]
+                         ELSE LET d == srcdims[j][1] IN [t \in 1..Len(r[d].pos) |-> <<a.labs[d][r[d].pos[t]]>>]]
+              jof(d) == CHOOSE j \in 1..nd : j # ins + 1 /\ srcdims[j][1] = d
+              src(c) == [i \in 1..Len(r) |-> IF i \in P THEN r[i].pos[c[ins + 1]]
+                                            ELSE IF r[i].drop THEN r[i].pos[1] ELSE r[i].pos[c[jof(i)]]]
+              cs == Coords(ShapeOf(labs))
+          IN Ok([srcdims |-> srcdims, ins |-> ins, labs |-> labs, cells |-> [k \in 1..Len(cs) |-> At(a, src(cs[k]))]])
+
 (* ---------- C10: rearranging dimensions ---------- *)
 \* perm[j] = position in a of the j-th dimension of the result
 Transpose(a, perm) ==
